@@ -57,6 +57,7 @@ func (g *fgen) call(in ssa.CallInstruction, st *state) []val {
 		before = st.clone()
 	}
 	rs := g.callInner(in, st)
+	g.lockInterference(in, st)
 	if before != nil {
 		isClosure := false
 		c := in.Common()
